@@ -1497,3 +1497,36 @@ def rule_narrow(ctx: Ctx) -> RuleResult:
         if r.value is None or not any(a.kind == "call" and a.text.endswith("get_with") for a in flow.depends(r.value, at.id if at else None)):
             res.violation([f.qualname, "return"], f"type_narrow returns `{norm(r.value) if r.value else None}`, not the narrowed Sid", f.relpath, r.lineno)
     return res
+
+
+def rule_constvalid(ctx: Ctx) -> RuleResult:
+    """FindInConstants only answers Sids that are typed: what it builds from a root and a constant (get_with) or takes from
+    the search itself (get_as) is tested before it is yielded (C10: every result is typed; C11: the constant levels answer
+    like the other finders)"""
+    res = RuleResult("R-CONSTVALID")
+    cls = ctx.p.cls("spil.sid.read.finders.find_constants.FindInConstants")
+    n = 0
+    for m in cls.methods.values():
+        flow = flow_of(m.node)
+        for y in [y for y in _yields(m) if isinstance(y, ast.Yield) and y.value is not None]:
+            v = y.value
+            if isinstance(v, ast.Call) and dotted(v.func) == "str" and v.args:
+                v = v.args[0]
+            if not isinstance(v, ast.Name):
+                continue
+            at = flow.node_of(y)
+            ds = list(flow.defs_reaching(at.id, v.id)) if at is not None else []
+            made = [d for d in ds if d.kind == "assign" and isinstance(d.value, ast.Call) and isinstance(d.value.func, ast.Attribute)
+                    and d.value.func.attr in ("get_with", "get_as")]
+            if not made:
+                continue  # taken from the parent source (already found) or joined to such a Sid
+            n += 1
+            site = f"{m.short}: `yield {norm(y.value)}`"
+            if (v.id, True) in facts_at(ctx, m, y):
+                res.ok(site, f"`{v.id}` (built by {made[0].value.func.attr}) is tested before it is yielded")
+            else:
+                res.violation([m.qualname, v.id, "untested result"], f"{m.short} yields `{v.id}`, the result of `{norm(made[0].value)[:50]}`, without "
+                                                                     f"testing that it is a typed Sid: an invalid combination of root and constant "
+                                                                     f"is answered as a (falsy, untyped) result", m.relpath, y.lineno, site=site)
+    res.floor(n, 3, "yields of built Sids in FindInConstants")
+    return res
